@@ -16,6 +16,9 @@ META = {
              "C05_implicit_partial - for an abstract linear solve with (M - hD) x = qfrc the new velocity satisfies (M - hD)(v' - v) = h qfrc; PARTIAL: the LU/LDL solvers, the derivative matrix qDeriv, implicitfast's free-body 6x6 correction and the flex-CG gate are not modelled. "
              "Tied by numeric correspondence on every run (tolerance 2^-36 scaled, bitwise where only + and * occur): mju_quatIntegrate on random/degenerate inputs, mj_integratePos and mj_differentiatePos on generated models with free/ball/slide/hinge joints (unnormalised, zero and nearly-unit quaternions, zero velocities), mj_nextActivation for integrator/filter/filterexact/muscle/user dyntypes with random dynprm (also <= 0) and actrange, mj_Euler with eulerdamp disabled (qvel' and time' bitwise), and one mj_step of mj_RungeKutta on a one-slide-joint spring-damper against the model's rk4 driven by the regenerated tableau. "
              "Observed by oracle on mj_step output for all four integrators: time advanced by exactly timestep (bitwise), quaternion norms within 1e-12, act within actrange, Euler (eulerdamp disabled) qvel' = qvel + h qacc and q' = q + h v' for scalar/free-translation coordinates (1e-12). "
+             "C05_actuator_vel - for an actuator with affine gain and bias and no activation the derivative rule of mjd_actuator_vel (gain velocity coefficient times the CLAMPED control plus bias velocity coefficient; 0 when the clamped force sits at either forcerange limit) is the derivative of the applied force wherever it exists, for any forcerange flo < fhi (asymmetric, one-sided); tied on one-hinge models (optionally behind a 3-input PID actuator so that actuator index != control index). "
+             "Implicit integrators, oracle with an independently MEASURED derivative: on mjgen models with re-randomised asymmetric/one-sided forceranges, ctrlranges, kv / velocity gains, gear signs, damping, disabled groups, and on custom models (multi-input PID actuators in front of limited ones, tendons across sibling branches and along chains, standalone free body), D = d qfrc/d qvel is measured by central finite differences of mj_forward (one-sided differences must agree, else the case is skipped as a kink) and both (M - hD)(v_new - v) = h(qfrc_smooth + qfrc_constraint) and qDeriv = D are checked row by row (implicitfast: passive + actuator part, full block for standalone free bodies). "
+             "This found two defects of /repo: the velocity-gain term used the unclamped control (fixed in /repo e72d433e4, the revert is kept as a mutant) and derivative terms between dofs that are not on one kinematic chain (cross-branch tendon damping / tendon actuators) are dropped by the sparsity of qDeriv (KNOWN finding C05-F1, emitted only for rows whose missing column is coupled by such a tendon according to input facts of the model). "
              "Not covered: IEEE rounding (all theorems are over R); the DC-motor branch of mj_nextActivation, wrapPeriod/SO3 re-anchoring of integrator activations, sleep filtering, history buffers, plugins; that mj_RungeKutta's loop equals the model's rk4 is tied only on the one-joint system; implicit integrators only through C05_implicit_partial and the oracle."),
     "note": "Trusted: Coq kernel + std-lib real-number axioms (Coquelicot for the derivative); hand-written model Model/Integrate.v; translator translate/tableau2v.py (regex extraction of two initialisers and of the indexing pattern of mj_RungeKutta); unverified float elementary functions Lib/FloatFn.v on the executable side; correspondence harness (gcc, driver c05_integ.c, mjgen.h models).",
     "assumptions": ["IEEE rounding is outside every theorem", "qpos/qvel addresses are consecutive in joint order (true for compiled models; the tie checks it implicitly)",
